@@ -43,6 +43,7 @@ func Generate(repo, scratch, helpersDir string) (*Result, error) {
 	overlay := map[string]string{}
 	h := sha256.New()
 	var files []string
+	hashOnly := map[string]bool{} // excluded from rewriting, still part of the tree hash
 	for _, r := range roots {
 		p := filepath.Join(repo, r)
 		st, err := os.Stat(p)
@@ -59,14 +60,14 @@ func Generate(repo, scratch, helpersDir string) (*Result, error) {
 			}
 			rel, _ := filepath.Rel(repo, path)
 			if info.IsDir() {
-				for _, ex := range excluded {
-					if rel == ex {
-						return filepath.SkipDir
-					}
-				}
 				return nil
 			}
 			if strings.HasSuffix(path, ".go") && !strings.HasSuffix(path, "_test.go") {
+				for _, ex := range excluded {
+					if strings.HasPrefix(rel, ex+"/") {
+						hashOnly[path] = true
+					}
+				}
 				files = append(files, path)
 			}
 			return nil
@@ -83,12 +84,15 @@ func Generate(repo, scratch, helpersDir string) (*Result, error) {
 		if err != nil {
 			return nil, fmt.Errorf("instrumenter: %v", err)
 		}
+		h.Write([]byte(rel))
+		h.Write(src)
+		if hashOnly[f] {
+			continue
+		}
 		out, changed, err := rewriteFile(rel, src, res.Sites)
 		if err != nil {
 			return nil, fmt.Errorf("instrumenter: %s: %v", rel, err)
 		}
-		h.Write([]byte(rel))
-		h.Write(src)
 		if !changed {
 			continue
 		}
